@@ -25,8 +25,8 @@ impl V5 {
 //@       lemma_v5_header_enc_append(Seq::<u8>::empty(), self.header);
 //@       assert(result@ =~= v5_header_enc(self.header));
 //@   }
-//@   before "let src_addr = set.src_addr": let ghost f0 = flows@;
-//@   after "flows.extend_from_slice(&pad2);": proof {
+//@   forstart 0: let ghost f0 = flows@;
+//@   forend 0: proof {
 //@       lemma_v5_record_enc_append(f0, *set);
 //@       let done = self.flowsets@.take(it.index@ + 1);
 //@       assert(done.drop_last() =~= self.flowsets@.take(it.index@ as int));
